@@ -202,6 +202,8 @@ func main() {
 		case "C18":
 			if *scenario == "stopenum" {
 				fmt.Println(c18.StopEnumSize())
+			} else if *scenario == "stopenum2" {
+				fmt.Println(c18.StopEnum2Size())
 			} else {
 				fmt.Println(c18.EnumSize())
 			}
